@@ -228,14 +228,58 @@ func mortonTrace(args []string) int {
 		w.put(map[string]any{"op": "parent", "z": bitsOf(z), "zp": bitsOf(zp)})
 	}
 	for i := 0; i < *n; i++ {
-		x, y := word(rng.Intn(5))&0x7FFFFFFF, word(rng.Intn(5))&0x7FFFFFFF // children must stay encodable
-		z, _ := morton.ToZ(x, y)
-		kids := pointindex.VerifGetQuadrantZs(z)
-		k := make([][]int, 4)
-		for q := 0; q < 4; q++ {
-			k[q] = bitsOf(kids[q])
+		x, y := word(rng.Intn(5))&0xFFFFFFFF, word(rng.Intn(5))&0xFFFFFFFF
+		switch i % 4 {
+		case 0: // children must stay encodable
+			x, y = x&0x7FFFFFFF, y&0x7FFFFFFF
+		case 1: // a parent in the right / upper half of a 32-level grid: its children do not fit in 32 bits
+			x |= 1 << 31
+		case 2:
+			y |= 1 << 31
 		}
-		w.put(map[string]any{"op": "kids", "z": bitsOf(z), "k": k})
+		z, _ := morton.ToZ(x, y)
+		k := make([][]int, 4)
+		panicked := func() (p bool) {
+			defer func() {
+				if recover() != nil {
+					p = true
+				}
+			}()
+			kids := pointindex.VerifGetQuadrantZs(z)
+			for q := 0; q < 4; q++ {
+				k[q] = bitsOf(kids[q])
+			}
+			return false
+		}()
+		if panicked {
+			for q := 0; q < 4; q++ {
+				k[q] = []int{}
+			}
+		}
+		w.put(map[string]any{"op": "kids", "x": bitsOf(x), "y": bitsOf(y), "z": bitsOf(z), "k": k, "panicked": panicked})
+	}
+	// MustToZ: what every production caller uses; not encodable addresses must be reported (panic), never aliased
+	for i := 0; i < *n; i++ {
+		x, y := word(i), word(rng.Intn(6))
+		switch i % 5 {
+		case 1:
+			x = uint(1)<<uint(32+rng.Intn(32)) | uint(rng.Uint32())
+			y &= 0xFFFFFFFF
+		case 2:
+			y = uint(1)<<uint(32+rng.Intn(32)) | uint(rng.Uint32())
+			x &= 0xFFFFFFFF
+		}
+		var z morton.Z
+		panicked := func() (p bool) {
+			defer func() {
+				if recover() != nil {
+					p = true
+				}
+			}()
+			z = morton.MustToZ(x, y)
+			return false
+		}()
+		w.put(map[string]any{"op": "must", "x": bitsOf(x), "y": bitsOf(y), "z": bitsOf(z), "panicked": panicked})
 	}
 	for i := 0; i < *n; i++ {
 		z := uint(rng.Uint64())
